@@ -50,11 +50,14 @@ type Gen struct {
 func hexs(s string) string { return hex.EncodeToString([]byte(s)) }
 
 var (
-	valsA   = []int64{-3, -1, 0, 1, 2, 3, 4, 5, 12, 13, 1 << 53, 1<<53 + 1, 1 << 60, 1<<60 + 1, math.MaxInt64, math.MinInt64, math.MaxInt64 - 1}
-	valsB   = []uint32{0, 1, 2, 3, 4, math.MaxUint32}
-	valsF   = []float64{-1.5, math.Copysign(0, -1), 0, 0.1, 1, 2.5, 1e300, -1e300, 5e-324, 3}
-	valsG   = []float32{0, 0.1, 1.5, 3e38, -2}
-	valsS   = []string{"", "a", "A", "b", "B", "ab", "Ab", "AB", "bad", "BAD", "é", "É", "ß", "ǅ", " x", "abc", "ABC", "b c"}
+	valsA = []int64{-3, -1, 0, 1, 2, 3, 4, 5, 12, 13, 1 << 53, 1<<53 + 1, 1 << 60, 1<<60 + 1, math.MaxInt64, math.MinInt64, math.MaxInt64 - 1}
+	valsB = []uint32{0, 1, 2, 3, 4, math.MaxUint32}
+	valsF = []float64{-1.5, math.Copysign(0, -1), 0, 0.1, 1, 2.5, 1e300, -1e300, 5e-324, 3}
+	valsG = []float32{0, 0.1, 1.5, 3e38, -2}
+	valsS = []string{"", "a", "A", "b", "B", "ab", "Ab", "AB", "bad", "BAD", "é", "É", "ß", "ǅ", " x", "abc", "ABC", "b c",
+		// what a JSON encoder has to escape or may mangle: control characters, quote, backslash,
+		// the HTML-sensitive characters, U+2028, DEL, a rune outside the BMP
+		"\x01", "a\"b", "b\\c", "<&>", "\u2028", "\x7f", "\U0001F600", "a\tb"}
 	valsTm  = []int64{0, 1, -1, 1700000000123456789, 1700000000123456788, 1700000000123456790, 1600000000000000000, math.MaxInt64, math.MinInt64 + 1}
 	valsI8  = []int8{-128, 0, 1, 2, 7, 127}
 	valsU16 = []uint16{0, 1, 2, 65535}
@@ -295,11 +298,23 @@ func (g *Gen) genCons() []DCons {
 	return cons
 }
 
+// extAlt: one custom extension in six is the empty one (files named by the bare uuid); drawn from
+// the generator's secondary PRNG so that the main stream is unchanged
+func (g *Gen) extAlt() bool {
+	if g.alt == nil {
+		g.alt = rand.New(rand.NewSource(int64(len(g.ops))*7919 + 17))
+	}
+	return g.alt.Intn(6) == 0
+}
+
 func (g *Gen) createOp() Op {
 	r := g.r
 	op := Op{Op: "create", Cons: g.cons, Ext: ".json"}
 	if r.Intn(100) < g.p.PExt {
 		op.Ext = []string{".obj", ".j", ".data.json"}[r.Intn(3)]
+		if g.extAlt() {
+			op.Ext = ""
+		}
 	}
 	op.Gz = r.Intn(100) < g.p.PGz
 	op.Cache = r.Intn(100) < g.p.PCache
@@ -396,7 +411,7 @@ func weighted(r *rand.Rand, w map[string]int) string {
 // only after waits that are certainly long enough; `tick n` tells the model how many polls
 // have certainly happened.
 func asyncHistory(p *Profile, seed int64) []Op {
-	g := &Gen{r: rand.New(rand.NewSource(seed)), p: p, usedK: map[int]bool{}}
+	g := &Gen{r: rand.New(rand.NewSource(seed)), alt: rand.New(rand.NewSource(seed ^ 0x5eed5eed)), p: p, usedK: map[int]bool{}}
 	r := g.r
 	g.cons = g.genCons()
 	g.add(Op{Op: "open"})
@@ -495,7 +510,7 @@ func asyncHistory(p *Profile, seed int64) []Op {
 // configuration is taken from the low bits of the seed so that a run of 32 seeds covers every
 // combination; only calls that the pinned release handles correctly are used.
 func goldenHistory(p *Profile, seed int64) []Op {
-	g := &Gen{r: rand.New(rand.NewSource(seed)), p: p, usedK: map[int]bool{}}
+	g := &Gen{r: rand.New(rand.NewSource(seed)), alt: rand.New(rand.NewSource(seed ^ 0x5eed5eed)), p: p, usedK: map[int]bool{}}
 	r := g.r
 	g.cons = g.genCons()
 	bits := seed % 32
@@ -547,7 +562,7 @@ func (g *Gen) goldenSweep() {
 
 // goldenContinuation: what the CURRENT code does on a copy of a golden directory.
 func goldenContinuation(p *Profile, seed int64, known []int) []Op {
-	g := &Gen{r: rand.New(rand.NewSource(seed)), p: p, usedK: map[int]bool{}}
+	g := &Gen{r: rand.New(rand.NewSource(seed)), alt: rand.New(rand.NewSource(seed ^ 0x5eed5eed)), p: p, usedK: map[int]bool{}}
 	for _, k := range known {
 		g.usedK[k] = true
 	}
@@ -596,7 +611,7 @@ func History(p *Profile, seed int64) []Op {
 	if p.Name == "golden" {
 		return goldenHistory(p, seed)
 	}
-	g := &Gen{r: rand.New(rand.NewSource(seed)), p: p, usedK: map[int]bool{}}
+	g := &Gen{r: rand.New(rand.NewSource(seed)), alt: rand.New(rand.NewSource(seed ^ 0x5eed5eed)), p: p, usedK: map[int]bool{}}
 	r := g.r
 	g.cons = g.genCons()
 	g.add(Op{Op: "open", Lower: r.Intn(100) < p.PLowerDir})
